@@ -159,6 +159,11 @@ ADVERSARIAL = [
          nruns=1, pre=[], ts=TS),
     dict(kind="flow", mode="dask", req=[[("image", ["fits", "npy"])], [("charge", ["npy"])]], nruns=4, pre=[], ts=TS,
          scheduler="threads"),
+    # an unimplemented format after an implemented one: dask aborts in its temporary metadata run
+    dict(kind="flow", mode="dask", req=[[("image", ["npy"]), ("photon", ["txt"])]], nruns=2, pre=[], ts=TS,
+         scheduler="threads"),
+    dict(kind="flow", mode="seq", req=[[("image", ["npy", "txt"])]], nruns=2, pre=[], ts=TS),
+    dict(kind="flow", mode="seq", req=[[("image", ["jpg", "jpeg"])]], nruns=1, pre=[], ts=TS),
 ]
 
 
